@@ -116,6 +116,22 @@ void check_string_pair(const Str &a, const Str &b, pbt::Ctx &ctx) {
             check_pair_axioms(Ops{va < cb, va <= cb, va > cb, va >= cb, va == cb, va != cb}, ref, "StringView vs C-string " + what, ctx);
         }
     }
+    // a String that contains a NUL unit against the C string that ends at that NUL (its own prefix, in a heap block of exactly the
+    // prefix's size + terminator): the String is the longer one - not equal, greater
+    {
+        const size_t z = a.find('\0');
+        if (z != Str::npos && z + 1 <= a.size()) {
+            const Str pre = a.substr(0, z);
+            char     *cz  = static_cast<char *>(malloc(z + 1));
+            memcpy(cz, pre.c_str(), z + 1);
+            const char *cc = cz;
+            String<char>     sx{a.c_str(), SizeT(a.size())};
+            StringView<char> vx{sx.First(), sx.Length()};
+            check_pair_axioms(Ops{sx < cc, sx <= cc, sx > cc, sx >= cc, sx == cc, sx != cc}, 1, "String with a NUL inside vs the C string ending there " + q(a), ctx);
+            check_pair_axioms(Ops{vx < cc, vx <= cc, vx > cc, vx >= cc, vx == cc, vx != cc}, 1, "StringView with a NUL inside vs the C string ending there " + q(a), ctx);
+            free(cz);
+        }
+    }
     // operands that share storage: two views cut from one buffer at the same start (what tokenising or prefix enumeration over a
     // single buffer produces), a view against the C string it was cut from, and both primitives on one pointer with two lengths
     if (a.size() != b.size() && (a.compare(0, std::string::npos, b, 0, a.size()) == 0 || b.compare(0, std::string::npos, a, 0, b.size()) == 0)) {
